@@ -46,6 +46,12 @@ impl Vm {
                         self.ip,
                         self.acc.clone(),
                     ));
+                    // Abandon the failed computation: the next evaluation starts
+                    // from an empty stack, like the first one did
+                    *self.stack.get_sp_mut() = 0;
+                    self.stack.clear();
+                    self.bp = 0;
+                    self.ep = usize::MAX;
                     return Err(e);
                 }
             }
